@@ -348,7 +348,8 @@ func ReadFromTTML(i io.Reader) (o *Subtitles, err error) {
 	o.Metadata = ttml.metadata()
 
 	// Loop through styles
-	var parentStyles = make(map[string]*Style)
+	var parentStyles = make(map[*Style]string)
+	var childStyles []*Style
 	for _, ts := range ttml.Styles {
 		var s = &Style{
 			ID:          ts.ID,
@@ -356,12 +357,14 @@ func ReadFromTTML(i io.Reader) (o *Subtitles, err error) {
 		}
 		o.Styles[s.ID] = s
 		if len(ts.Style) > 0 {
-			parentStyles[ts.Style] = s
+			parentStyles[s] = ts.Style
+			childStyles = append(childStyles, s)
 		}
 	}
 
 	// Take care of parent styles
-	for id, s := range parentStyles {
+	for _, s := range childStyles {
+		var id = parentStyles[s]
 		if _, ok := o.Styles[id]; !ok {
 			err = fmt.Errorf("astisub: Style %s requested by style %s doesn't exist", id, s.ID)
 			return
